@@ -33,7 +33,8 @@ RULE = ('Generated histories of emit(to=sid, callback=cb_k) and call() to '
         'TimeoutError. Non-trivial: an ACK whose id is outstanding for a '
         'different client, or a repeated ACK, or a reconnect between emit '
         'and ACK.'
-        ' A separate msgpack part sends ACKs whose id is the float / bool / list / map / string / negative form of an outstanding id: never issued, so ignored, without any error other than a rejection.')
+        ' A separate msgpack part sends ACKs whose id is the float / bool / list / map / string / negative form of an outstanding id: never issued, so ignored, without any error other than a rejection.'
+        " Two further small parts: an ACK delivered from a second real thread while the callback of another ACK is still running (threaded server), and an ACK that arrives while its client's disconnect handler is running (never fires).")
 ASSUMPTIONS = [
     'callbacks only on emits addressed to one client',
     'sync call(): the wait primitive is a harness event that pumps the '
